@@ -354,6 +354,7 @@ def corpus(prefix="", tree_has=("f.bin", "dir/g.txt")):
     S = {}
     S["login_quit"] = login + [["quit"]]
     S["login_pw"] = [["connect"], ["login", "alice", "secret"], ["cmd", "PWD"], ["quit"]]
+    S["login_retry"] = [["connect"], ["login", "alice", "wrong"], ["login", "alice", "secret"], ["cmd", "PWD"], ["sleep", 0.02], ["quit"]]
     S["login_bad_pw"] = [["connect"], ["login", "alice", "wrong"], ["cmd", "PWD"], ["quit"]]
     S["walk"] = login + [["cmd", f"CWD {P}/dir"], ["cmd", "PWD"], ["cmd", "CDUP"], ["cmd", "PWD"],
                          ["cmd", f"CWD {P}/nope"], ["cmd", "PWD"], ["quit"]]
